@@ -344,7 +344,7 @@ SetStateF(x, state, result, firstRepetition) ==
                            THEN [x EXCEPT !.s.rretries[r + 1] = @ + 1, !.s.nextq = QPush(@, r), !.s.cur = -1]     \* repeat
                            ELSE IF state = BS_sendSyn \/ (result < RC_OK /\ ~firstRepetition)
                            THEN LET n == NotifyF(x, r, IF result = RC_ERR_SYN /\ s0.state \in {BS_recvCmdAck, BS_recvRes}
-                                                         THEN RC_ERR_TIMEOUT ELSE result, s0.res)
+                                                         THEN RC_ERR_TIMEOUT ELSE (IF result > RC_OK THEN RC_OK ELSE result), s0.res)
                                     y == IF n.restart THEN [n.x EXCEPT !.s.rretries[r + 1] = 0, !.s.nextq = QPush(@, r)]
                                          ELSE IF ReqKind(r) = 1 THEN DeleteReqF(n.x, r)
                                          ELSE [n.x EXCEPT !.s.finq = QPush(@, r)] IN
@@ -430,8 +430,10 @@ HandleSymbolF(x0, result, recvSymbol0, sending, sentSymbol0) ==
                      ELSE IF s1.remainLock = 0 /\ Len(s1.cmd) = 1 THEN 1      \* SYN / address / SYN
                      ELSE s1.remainLock)
                ELSE s1.remainLock IN
-     [x |-> SetStateF([x1 EXCEPT !.s.remainLock = rl], BS_ready, IF s1.state = BS_skip \/ rl > 0 THEN result ELSE RC_ERR_SYN, FALSE),
-      res |-> IF s1.state = BS_skip \/ rl > 0 THEN result ELSE RC_ERR_SYN]
+     \* a SYN always ends the exchange of the current request (fix "a SYN that arrives together with further data ...")
+     LET quiet == s1.state = BS_skip \/ (rl > 0 /\ s1.cur = -1) IN
+     [x |-> SetStateF([x1 EXCEPT !.s.remainLock = rl], BS_ready, IF quiet THEN result ELSE RC_ERR_SYN, FALSE),
+      res |-> IF quiet THEN result ELSE RC_ERR_SYN]
   ELSE IF sending /\ s1.state # BS_ready /\ recvSymbol0 # sentSymbol0 THEN
      [x |-> SetStateF(x1, BS_skip, RC_ERR_SYMBOL, FALSE), res |-> RC_ERR_SYMBOL]
   ELSE
